@@ -14,6 +14,7 @@ import (
 	"github.com/inspirer/textmapper/grammar"
 	"github.com/inspirer/textmapper/status"
 	"github.com/inspirer/textmapper/syntax"
+	"github.com/inspirer/textmapper/util/ident"
 )
 
 var funcMap = template.FuncMap{
@@ -25,6 +26,7 @@ var funcMap = template.FuncMap{
 	"int_array_columns":   intArrayColumns,
 	"str_literal":         strconv.Quote,
 	"line_comment":        lineComment,
+	"go_name":             goName,
 	"stringify":           stringify,
 	"title":               strings.Title,
 	"lower":               strings.ToLower,
@@ -112,6 +114,14 @@ func allCasts(g *grammar.Grammar) []*CastInfo {
 // lineComment keeps a text on the line of a // comment.
 func lineComment(s string) string {
 	return strings.NewReplacer("\n", `\n`, "\r", `\r`).Replace(s)
+}
+
+// goName turns names that are not Go identifiers (my-marker) into identifiers, the others are kept.
+func goName(s string) string {
+	if ident.IsValid(s) {
+		return s
+	}
+	return ident.Produce(s, ident.CamelCase)
 }
 
 func stringify(s string) string {
